@@ -605,6 +605,55 @@ func TestC05(t *testing.T) {
 		}
 	})
 
+	// (2c) the corpus in another order: every shard lints the whole corpus (full registry, fresh parses) in an order of
+	// its own, derived from the seed; each object's verdicts must be those of the first pass (file-name order) - state
+	// that travels from one object to the next through *any* lint or helper shows when the neighbours change
+	{
+		type ref struct {
+			dig string
+			v   map[string]model.Verdict
+		}
+		var all []gen.Obj
+		all = append(append(append(all, co.Certs...), co.CRLs...), co.OCSPs...)
+		first := make([]ref, len(all))
+		for i, o := range all {
+			if rs, _, ok := lintCase(engine.Case{Kind: o.Kind, DER: o.DER}); ok && rs != nil {
+				first[i] = ref{engine.Digest(rs), engine.Verdicts(rs)}
+			}
+		}
+		perm := make([]int, len(all))
+		for i := range perm {
+			perm[i] = i
+		}
+		x := uint64(shard)*0x9e3779b97f4a7c15 + verifSeed()*0xbf58476d1ce4e5b9 + 1
+		for i := len(perm) - 1; i > 0; i-- {
+			x = x*6364136223846793005 + 1442695040888963407
+			j := int((x >> 33) % uint64(i+1))
+			perm[i], perm[j] = perm[j], perm[i]
+		}
+		prev := ""
+		for _, i := range perm {
+			o := all[i]
+			if first[i].v == nil {
+				continue
+			}
+			rs, _, ok := lintCase(engine.Case{Kind: o.Kind, DER: o.DER})
+			rec.Eval()
+			rec.Class("corpus_permuted")
+			if ok && rs != nil && engine.Digest(rs) != first[i].dig {
+				v := engine.Verdicts(rs)
+				for n, a := range first[i].v {
+					if b := v[n]; (b.Status != a.Status || b.Details != a.Details) && !timeNowLints[n] {
+						c := c05Case{Case: engine.Case{Kind: o.Kind, DER: o.DER, Base: o.Name, Note: "linted after " + prev}, Reps: 2}
+						if rec.Report("c05", "order-of-objects|"+n, fmt.Sprintf("%s says %s about %s when it is linted after %s, and %s in file-name order", n, b, o.Name, prev, a), c) {
+							t.Fatalf("c05 corpus in permuted order: %s on %s after %s", n, o.Name, prev)
+						}
+					}
+				}
+			}
+			prev = o.Name
+		}
+	}
 	// (2'') the predecessor sweep: every lint x its reporting objects as predecessor x every object of the kind
 	predecessorSweep(rec, func(s string) { t.Fatalf("%s", s) })
 	// (2') the soak history: an object met again after many distinct others gets its first verdict
